@@ -65,6 +65,9 @@ def comp : Component where
           | _, _ => "start ")
         | none => "bad-thread "
       ({ st with s := s' }, line4 (sysStr s') "-" "*" tags)
+    | ["ar0"] =>
+      -- the read loop is about to take connLock in getConn: nothing has been looked at yet
+      (st, line4 (sysStr st.s) "-" "*" "arrival-at-lock ")
     | ["arb"] =>
       -- the read loop is inside getConn (holding connLock), past the admission check, about to count the connection
       let s' := stepOp st.backlog st.s .arriveBegin
